@@ -130,6 +130,20 @@ type FormatTableItem struct {
 	Chunk  ChunkID
 }
 
+// payloadReader reads the payload of a file. Unlike a plain LimitedReader it
+// fails if the stream ends before the whole payload was read.
+type payloadReader struct {
+	io.LimitedReader
+}
+
+func (p *payloadReader) Read(b []byte) (int, error) {
+	n, err := p.LimitedReader.Read(b)
+	if err == io.EOF && p.N > 0 {
+		err = io.ErrUnexpectedEOF
+	}
+	return n, err
+}
+
 // FormatDecoder is used to parse and break up a stream of casync format elements
 // found in archives or index files.
 type FormatDecoder struct {
@@ -158,8 +172,11 @@ func (d *FormatDecoder) Next() (interface{}, error) {
 	// If we previously returned a reader, make sure we advance all the way in
 	// case the caller didn't read it all.
 	if d.advance != nil {
-		io.Copy(ioutil.Discard, d.advance)
+		_, err := io.Copy(ioutil.Discard, d.advance)
 		d.advance = nil
+		if err != nil {
+			return nil, err
+		}
 	}
 	hdr, err := d.r.ReadHeader()
 	if err != nil {
@@ -278,7 +295,7 @@ func (d *FormatDecoder) Next() (interface{}, error) {
 			return nil, InvalidFormat{"invalid payload size"}
 		}
 		size := hdr.Size - 16
-		r := io.LimitReader(d.r, int64(size))
+		r := &payloadReader{io.LimitedReader{R: d.r, N: int64(size)}}
 		// Record the reader to be read fully on the next iteration if the caller
 		// didn't do it
 		d.advance = r
